@@ -868,6 +868,14 @@ def _process_graph_io_arguments(iofile, graph_type, file_format, multi_edges):
 def normalize_networkx_labels(G):
     """Relabel all vertices as integer starting from 1"""
     # Normalize GML file. All nodes are integers starting from 1
+    nodes = list(G.nodes())
+    if len(nodes) > 0 and all(isinstance(v, str) and v.isascii() and v.isdigit()
+                              for v in nodes):
+        # numerals (as in dot files) are ordered by value, not as text,
+        # otherwise '10' would come before '2'
+        order = sorted(nodes, key=int)
+        mapping = {v: i for i, v in enumerate(order, start=1)}
+        return networkx.relabel_nodes(G, mapping)
     try:
         G = networkx.convert_node_labels_to_integers(
             G, first_label=1, ordering='sorted')
